@@ -87,8 +87,9 @@ Definition drop_keys (h : hdrs) (ks : list str) : hdrs :=
 
 Definition enc_client (c : client) : sx :=
   match cl_kind c with
-  | KOrigin => L [enc_kind KOrigin; I (cl_status c); enc_hdrs (drop_keys (cl_hdrs c) client_ignored); A (cl_body c); of_bool (cl_aborted c)]
-  | k => L [enc_kind k; I (cl_status c); L []; A []; of_bool false]
+  | KOrigin => L [enc_kind KOrigin; I (cl_status c); enc_hdrs (drop_keys (cl_hdrs c) client_ignored); A (cl_body c); of_bool (cl_aborted c);
+                  A (if Z.eqb (cl_status c) 206 then hget (cl_hdrs c) (bytes "Content-Length"%string) else [])]
+  | k => L [enc_kind k; I (cl_status c); L []; A []; of_bool false; A []]
   end.
 
 Definition enc_dlv (d : dlv) : sx :=
@@ -120,8 +121,10 @@ Definition dec_enc_hdrs (x : sx) : hdrs :=
 Definition proj_client (x : sx) : sx :=
   let kind := sx_str (sx_nth 0 x) in
   if str_eqb kind (bytes "origin"%string) then
-    L [A kind; sx_nth 1 x; enc_hdrs (drop_keys (dec_enc_hdrs (sx_nth 2 x)) client_ignored); sx_nth 3 x; of_bool (sx_bool (sx_nth 4 x))]
-  else L [A kind; sx_nth 1 x; L []; A []; of_bool false].
+    L [A kind; sx_nth 1 x; enc_hdrs (drop_keys (dec_enc_hdrs (sx_nth 2 x)) client_ignored); sx_nth 3 x; of_bool (sx_bool (sx_nth 4 x));
+       (* the declared length of a partial response is rrrouter's own doing: keep it *)
+       A (if Z.eqb (sx_int (sx_nth 1 x)) 206 then hget (dec_enc_hdrs (sx_nth 2 x)) (bytes "Content-Length"%string) else [])]
+  else L [A kind; sx_nth 1 x; L []; A []; of_bool false; A []].
 
 Definition proj_dlv (x : sx) : sx :=
   L [sx_nth 0 x; sx_nth 1 x; sx_nth 2 x; enc_hdrs (drop_keys (dec_enc_hdrs (sx_nth 3 x)) dlv_ignored); sx_nth 4 x].
